@@ -302,6 +302,32 @@ def run(ctx):
     if sel:
         tr5 = ctx.drive(drive, ["--cases", p1100, "--n", "0"], "trace-gen1100.ndjson")
         verdicts.append(par_monitor(ctx, "mon-gen1100", tr5, cover=cover, timeout=3000))
+    # huge |y ln x| and |x| (up to the ~4000 the enclosure's argument reduction handles) at small precisions, every base:
+    # the guard digits of powf / exp must grow with the magnitude of the exponent of the result, in digits of the base
+    def wire(v):
+        m = abs(v)
+        return {"s": 1 if v < 0 else 0, "m": list(m.to_bytes((m.bit_length() + 7) // 8, "little"))}
+    def F(sig, exp):
+        return {"sig": wire(sig), "exp": exp}
+    modes = ["HalfAway", "Zero", "HalfEven", "Up", "Down", "Away"]
+    hugec = []
+    for k, (base, prec, x, y) in enumerate([
+            (10, 5, F(15, -1), F(9000, 0)), (10, 4, F(7, 0), F(15005, -1)), (10, 8, F(3, 0), F(30001, -1)), (10, 3, F(15, -1), F(-8000, 0)),
+            (16, 8, F(3, 0), F(3400, 0)), (16, 4, F(5, 0), F(0x8001, -1)), (36, 2, F(2, 0), F(5000, 0)), (36, 3, F(7, 0), F(-1500, 0)),
+            (3, 9, F(5, 0), F(2200, 0)), (2, 24, F(3, 0), F(3001, 0)), (2, 53, F(3, 0), F(-6001, -1)), (10, 6, F(123, -2), F(12345, 0))]):
+        hugec.append({"op": "powf", "base": base, "mode": modes[(k + ctx.seed) % 6], "prec": prec, "x": x, "y": y, "n": 0,
+                      "cls": "powf:huge", "src": "gen"})
+    for k, (base, prec, x) in enumerate([(10, 7, F(3500, 0)), (10, 7, F(-3500, 0)), (10, 16, F(2345678, -3)), (2, 53, F(3900, 0)),
+                                          (2, 24, F(-3000, 0)), (16, 6, F(0xE00, 0)), (36, 3, F(-2000, 0)), (3, 12, F(1000, 0))]):
+        hugec.append({"op": "exp", "base": base, "mode": modes[(k + 2 * ctx.seed) % 6], "prec": prec, "x": x, "y": F(0, 0), "n": 0,
+                      "cls": "exp:huge", "src": "gen"})
+    if ctx.quick:
+        hugec = hugec[ctx.seed % 2::2]
+    phuge = ctx.path("cases-huge.ndjson")
+    open(phuge, "w").write("".join(json.dumps(c) + "\n" for c in hugec))
+    ctx.scope["gen_cases_huge_magnitude"] = len(hugec)
+    tr6 = ctx.drive(drive, ["--cases", phuge, "--n", "0"], "trace-genhuge.ndjson")
+    verdicts.append(par_monitor(ctx, "mon-genhuge", tr6, cover=cover, timeout=3000))
     if not ctx.quick:
         # precision 100 on every base (thinned), a few cases at 300 digits
         cfg = fw.write_cfg(ctx.path("Gen_C11_100.cfg"), invariants=["Emit"],
